@@ -5,7 +5,7 @@
 (* RegexGenerator (one clause per _generate_* method) driven by a tape of  *)
 (* draw selectors.                                                         *)
 (***************************************************************************)
-EXTENDS D42Values
+EXTENDS D42Values, D42Known
 
 (***************************************************************************)
 (* AST                                                                     *)
@@ -31,6 +31,7 @@ REnd == [r |-> "at", at |-> "end"]
 RUns(kind, body) == [r |-> "uns", kind |-> kind, body |-> body]
 
 SupportedCats == {"digit", "word"}
+MAX_REPEAT_OPCODE == 44      \* re._constants.MAX_REPEAT on CPython 3.12
 
 Digits == <<48, 49, 50, 51, 52, 53, 54, 55, 56, 57>>
 Lower == [i \in 1..26 |-> 96 + i]
@@ -198,7 +199,8 @@ RGen(r, tape, p, mr) ==
     [] r.r = "alt" -> RGen(r.alts[PickIdx(SelAt(tape, p), Len(r.alts))], tape, p + 1, mr)
     [] r.r = "seq" -> RGenSeq(r.parts, 1, tape, p, mr, <<>>)
     [] r.r = "rep" ->
-         LET hi == IF r.hi = INF THEN DMax2(mr, r.lo) ELSE r.hi
+         LET open == r.hi = INF \/ (DEV_RegexOpcodeAsBound /\ r.hi = MAX_REPEAT_OPCODE)
+             hi == IF open THEN DMax2(mr, r.lo) ELSE r.hi
          IN  IF r.lo > hi THEN RErr("ValueError", p + 1)
              ELSE RGenRepeat(r.body, PickInt(SelAt(tape, p), r.lo, hi), tape, p + 1, mr, <<>>)
     [] r.r = "at" -> ROk(<<>>, p)
